@@ -85,11 +85,24 @@ def dvzLine (fn inits m writes : String) : String :=
     s!"d={c.1.d} in={Hive.Derived.showIntList vals} finished={showBool (c.2.all DVT.finished)}"
   | _, _, _, _ => "bad-op"
 
+/-- `dvw <fn> <inits> <k> <writes>`: "a writer inside the OnUpdate window of the constructor's k-th subscription"
+(hook `VerifOnUpdateWindow`) replayed on `dvSys` with the flags of the code. -/
+def dvwLine (fn inits k writes : String) : String :=
+  match fnEval fn, parseInts inits, k.toNat?, parsePairs writes with
+  | some f, some inits, some k, some writes =>
+    let n := inits.length
+    if n < 1 || n > 4 then "bad-op" else
+    let c := dvwReplay n (fun a => f ((List.range n).map a)) (trigOf (subsOfArity n)) inits k writes
+    let vals := (List.range n).map c.1.val
+    s!"d={c.1.d} in={Hive.Derived.showIntList vals} finished={showBool (c.2.all DVT.finished)}"
+  | _, _, _, _ => "bad-op"
+
 def stepLine (st : DSt) (toks : List String) : DSt × String :=
   match toks with
   | "q" :: rest => (st, qLine rest)
   | "stress" :: _ => (st, "ok")      -- scenario descriptor of a stress case (its `q` lines follow)
   | ["dvz", fn, inits, m, writes] => (st, dvzLine fn inits m writes)
+  | ["dvw", fn, inits, k, writes] => (st, dvwLine fn inits k writes)
   | "ds" :: rest =>
     let s := match st with | .ds s => s | _ => DS.init
     let r := s.stepLine rest; (.ds r.1, r.2)
